@@ -122,6 +122,8 @@ def generate(rng, tier="quick"):
         validator = "jsonschema.validators." + name
     tok = "%04x" % rng.randrange(1 << 16)
     spath = "schema-%s.json" % tok
+    if rng.random() < 0.05:
+        spath = "schema-{%s}.json" % tok
     sstate = rng.choice([None] * 14 + ["invalid", "invalid", "fs_enoent", "fs_torn", "fs_empty", "fs_bitflip",
                                         "fs_bad_utf8", "scalar"])
     if sstate == "invalid":
@@ -211,6 +213,10 @@ def generate(rng, tier="quick"):
         if use_stdin and kind in ("fs_eisdir", "fs_eacces", "fs_enoent"):
             kind = None                 # open() faults do not exist for stdin
         path = "<stdin>" if use_stdin else "inst%d-%s.json" % (i, tok)
+        if not use_stdin and rng.random() < 0.12:
+            # file names are DATA: braces in them are not replacement fields of anybody's format string
+            path = rng.choice(["inst%d-{%s}.json", "{inst%d}-%s.json", "inst%d-%s{.json", "set{{%d}}-%s.json",
+                               "{body}%d-%s.json", "inst%d-%s}.json"]) % (i, tok)
         data = apply_fault(rng, good, kind)
         ent = None
         if data is not None:
